@@ -1,0 +1,12 @@
+//go:build verif
+// +build verif
+
+// Contracts for deductive verification (govc, /verif). Comment-only file.
+
+package cache
+
+// A *big.Int held in an LRU cache is a cache-owned cell (ghost set cacheCells):
+// it is never one of the cells a caller has just created.
+//@ func LRUCache.Get
+//@   noverify
+//@   ensures cached_cells_are_cache_owned: result1 && typeis(result0, big.Int) ==> sel(cacheCells, ifacePtr(result0))
